@@ -40,7 +40,9 @@ func (st *SiteTable) key(kind byte, line int) string {
 		return string([]byte{kind, byte('0' + i)})
 	}
 	if st.frozen {
-		st.drift++
+		if kind < 'a' {
+			st.drift++
+		}
 		return string([]byte{kind, '?'})
 	}
 	ls = append(ls, 0)
@@ -89,18 +91,85 @@ type Gate struct {
 	arm  map[string]int // site key -> number of callers still to park there (-1 = all)
 	park []*parkedG
 	hits map[string]int
+	hook func(key string)
+	// optional wrapped standard context (context.WithCancel / WithDeadline): Done/Err/Deadline answer from it
+	inner       context.Context
+	innerCancel context.CancelFunc
+}
+
+// NewGateWrapping makes a gate around a standard library context: the interception is the gate's,
+// the cancellation state is the inner context's.
+func NewGateWrapping(st *SiteTable, inner context.Context, cancel context.CancelFunc) *Gate {
+	g := NewGate(st)
+	g.inner, g.innerCancel = inner, cancel
+	return g
 }
 
 func NewGate(st *SiteTable) *Gate {
 	return &Gate{st: st, done: make(chan struct{}), arm: map[string]int{}, hits: map[string]int{}}
 }
 
-func (g *Gate) Deadline() (time.Time, bool) { return time.Time{}, false }
+func (g *Gate) Deadline() (time.Time, bool) {
+	if g.inner != nil {
+		return g.inner.Deadline()
+	}
+	return time.Time{}, false
+}
 func (g *Gate) Value(any) any               { return nil }
+
+// Err is intercepted like Done: the call site is identified (keys "q<k>", "w<k>", "p<k>": ordinal of
+// the line among the Err() call sites of startQueue / startWorker / PushTask) and the hook, if any,
+// runs BEFORE the answer is computed - so a scenario can let things happen between the moment the
+// code under test decides to ask and the answer it gets (e.g. start the task just pushed, then cancel).
 func (g *Gate) Err() error {
+	var pcs [1]uintptr
+	key := "x?"
+	if runtime.Callers(2, pcs[:]) == 1 {
+		fr, _ := runtime.CallersFrames(pcs[:]).Next()
+		if k := classify(fr.Function); k != 'X' {
+			key = g.st.key(k+('a'-'A'), fr.Line)
+		}
+	}
+	g.mu.Lock()
+	g.hits[key]++
+	hook := g.hook
+	g.mu.Unlock()
+	if hook != nil && key != "x?" {
+		hook(key)
+	}
+	return g.ErrNow()
+}
+
+// ErrNow is the harness's own view of the context state (no interception).
+func (g *Gate) ErrNow() error {
+	if g.inner != nil {
+		return g.inner.Err()
+	}
 	g.mu.Lock()
 	defer g.mu.Unlock()
 	return g.err
+}
+
+// TotalHits is the number of Done()/Err() calls made so far by the lane's own goroutines (startQueue / startWorker).
+func (g *Gate) LaneHits() int {
+	g.mu.Lock()
+	defer g.mu.Unlock()
+	n := 0
+	for k, v := range g.hits {
+		switch k[0] {
+		case 'Q', 'W', 'q', 'w':
+			n += v
+		}
+	}
+	return n
+}
+
+// SetHook installs a function called at the beginning of every Done() / Err() call made by the code
+// under test, with the site key, in the calling goroutine.
+func (g *Gate) SetHook(h func(key string)) {
+	g.mu.Lock()
+	g.hook = h
+	g.mu.Unlock()
 }
 
 func classify(fn string) byte {
@@ -126,6 +195,12 @@ func (g *Gate) Done() <-chan struct{} {
 		}
 	}
 	g.mu.Lock()
+	hook := g.hook
+	g.mu.Unlock()
+	if hook != nil && key != "X?" {
+		hook(key)
+	}
+	g.mu.Lock()
 	g.hits[key]++
 	var p *parkedG
 	if n := g.arm[key]; n != 0 {
@@ -139,11 +214,18 @@ func (g *Gate) Done() <-chan struct{} {
 	if p != nil {
 		<-p.resume
 	}
+	if g.inner != nil {
+		return g.inner.Done()
+	}
 	return g.done
 }
 
 // Cancel ends the context with the given error (context.Canceled or context.DeadlineExceeded).
 func (g *Gate) Cancel(err error) {
+	if g.inner != nil {
+		g.innerCancel()
+		return
+	}
 	g.mu.Lock()
 	defer g.mu.Unlock()
 	if g.err == nil {
